@@ -316,6 +316,18 @@ def run_case(case: dict) -> dict:
                         presented, chosen = buffer, "reused-buffer"
                     values[a["name"]] = presented
                     record[a["name"]] = (canonical_bytes(canonical, a["dtype"]), vclass, chosen, canonical)
+                if k == 2 and case["vseed"] % 3 == 1 and len(case["attrs"]) >= 2:
+                    # a rejected write in the middle of the sequence (text for a numeric attribute that is not the
+                    # first one): it must leave the neighbouring examples' values alone
+                    victim = next((a for a in reversed(case["attrs"][1:]) if a["dtype"] not in ("str", "bytes")), None)
+                    if victim is not None:
+                        broken = dict(values)
+                        broken[victim["name"]] = np.full(tuple(victim["shape"]), "text", dtype="<U4")
+                        try:
+                            filler.write_example(values=broken, split="train")
+                            obs["invalid_write_accepted"] += 1
+                        except Exception:  # pylint: disable=broad-exception-caught
+                            obs["rejected_writes_in_sequence"] += 1
                 if shuffle_keys:
                     names = list(values)
                     prng.shuffle(names)
@@ -343,6 +355,8 @@ def run_case(case: dict) -> dict:
                 else:
                     obs["unsupported_cell_read_raised"] += 1
                 continue
+            if obs["invalid_write_accepted"]:
+                break      # the format took the text value: that is C18's business, the sequence is not comparable
             if len(examples) != len(written):
                 violations.append({"key": f"example-count/{fmt}/{reader}", "msg": f"{len(examples)} read, {len(written)} written"})
                 continue
